@@ -14,7 +14,7 @@ from mc import refalg as R
 PROPERTY = "C07"
 LEVEL = "model_checking"
 
-SHAPES = ["sum", "weighted", "zero", "cancel", "nested", "scaled", "dd", "nn", "three", "double", "nil"]
+SHAPES = ["sum", "weighted", "zero", "cancel", "nested", "scaled", "dd", "nn", "three", "double", "nil", "nested_rev", "cancel_rev"]
 POINTS = ["x0", "x1", "x0c", "cancel", "combo", "combo_rev", "x0z", "last"]
 OPS_FULL = ["oracle", "gradient", "value", "call", "stat", "fixed", "prox", "els", "iprox", "epssub", "bprox"]
 OPS_RED = ["oracle", "value", "stat", "prox"]
@@ -35,6 +35,8 @@ class World(object):
         elif shape == "zero": F = f1 + 0 * f2
         elif shape == "cancel": F = f1 + f2 - f2
         elif shape == "nested": F = (f1 + f2) + f1
+        elif shape == "nested_rev": F = f1 + (f1 + f2)           # shared leaf, the operand with FEWER leaves on the left
+        elif shape == "cancel_rev": F = f2 - (f1 + f2)           # ... and a weight that cancels in that order (F = -f1)
         elif shape == "scaled": F = 3 * (f1 / 3)
         elif shape == "double": F = 2 * f1                      # a multiple of ONE term
         elif shape == "nil": F = f2 - f2                        # identically zero: its only term cancels
@@ -59,6 +61,7 @@ class World(object):
         # the weights the user wrote, independent of the library's own bookkeeping
         self.weights = {"sum": {"f1": 1, "f2": 1}, "weighted": {"f1": -1, "f2": 2}, "zero": {"f1": 1},
                         "cancel": {"f1": 1}, "nested": {"f1": 2, "f2": 1}, "scaled": {"f1": 1}, "double": {"f1": 2}, "nil": {},
+                        "nested_rev": {"f1": 2, "f2": 1}, "cancel_rev": {"f1": -1},
                         "dd": {"f1": 1, "f3": 1}, "nn": {"f2": 1, "f4": 1}, "three": {"f1": 1, "f2": 2, "f4": 1}}[shape]
         self.differentiable = {"f1": True, "f2": False, "f3": True, "f4": False,
                                "F": all(n in ("f1", "f3") for n in self.weights)}
